@@ -72,8 +72,8 @@ def main():
     chk.cov['functions_encoded'] = src_hash(M.parse_tree_to_objgraph, M._remove_all_affected_models_in_construction,
                                             S.remove_models_from_repositories, M.get_model_parser)
     chk.cov['bounds'] = {'cases': sorted(set(i[0] for i in items)), 'global_repository': [False, True],
-                         'fault_points': 'every scope-provider / object-processor / match-rule-processor (during construction) / model-processor call'}
-    chk.cov['outside_claim'] = ['faults in user __init__', 'other grammars', 'GC reachability is observed, not encoded']
+                         'fault_points': 'every scope-provider / object-processor / match-rule-processor (during construction) / model-processor call and every user-class constructor call'}
+    chk.cov['outside_claim'] = ['other grammars', 'GC reachability is observed, not encoded']
     chk.assumptions = ['finite fault space enumerated exhaustively (selectors unconstrained: z3 decides nothing)']
     paths = failing = 0
     seen = set()
